@@ -57,7 +57,7 @@ impl Property for C13 {
     }
     fn cases(&self, tier: Tier) -> usize {
         match tier {
-            Tier::Quick => 30_000,
+            Tier::Quick => 40_000,
             Tier::Thorough => 1_000_000,
         }
     }
